@@ -165,16 +165,41 @@ def j7(cx):
     return [Finding(ID, 'J7', f.key, f.ok, f.msg, f.loc, f.witness) for f in c10.l6(cx)]
 
 
+def _loaders(cx, tag, LIVE, WAIT):
+    """names of the inherent helpers that move the waiting chamber into the live list (`load` today): identified by what they do —
+    a push/append/extend into the live list in a function that also touches the chamber — not by their name"""
+    F = cx.facts
+    out = set()
+    for im in F.impls.values():
+        if roles.impl_tag(cx, im) != tag or im.get('trait'):
+            continue
+        for f in im['fns']:
+            fn = F.fns.get(f['key'])
+            if fn is None:
+                continue
+            g = cx.graph(fn['key'], inline=False)
+            moves = [n for n in g.nodes if n['kind'] == 'call' and n['name'].rsplit('::', 1)[-1] in ('push', 'insert', 'append', 'extend') and n['args']
+                     and recv_class(n['args'][0]) == 'self.' + LIVE]
+            touch = [n for n in g.nodes if n['kind'] == 'call' and n['args'] and recv_class(n['args'][0]) == 'self.' + WAIT]
+            if moves and touch:
+                out.add(f['n'])
+    return out
+
+
 def _check(cx):
     F = cx.facts
     res = []
     subs = _subjects(cx)
     seen = set()
+    loaders_of = {}
     for im in sorted(F.impls.values(), key=lambda i: (i['file'], i['line'], i['self_s'])):
         tag = roles.impl_tag(cx, im)
         if tag not in subs:
             continue
         LIVE, WAIT = _lists(cx, tag)
+        if tag not in loaders_of:
+            loaders_of[tag] = _loaders(cx, tag, LIVE, WAIT)
+        LOAD = tuple('::' + x for x in sorted(loaders_of[tag])) or ('::load',)
         tr = im.get('trait')
         if tr == 'observer::Observer':
             seen.add(tag)
@@ -204,7 +229,7 @@ def _check(cx):
                                    'the broadcast is not inside a single critical section of `observers` (%d guard ranges, %d calls): concurrent emitters could interleave per subscriber' % (len(guards), len(pubs)),
                                    fn['span'], [node_desc(g, n) for n in pubs[:3]]))
                 # J6: a broadcast visits every live subscriber: the live list is not edited while a notification is delivered
-                edits = [n for n in g.nodes if n['kind'] == 'call' and n['args'] and recv_class(n['args'][0]) == 'self.' + LIVE and not any(c[2].endswith('::load') for c in n['ctx'])
+                edits = [n for n in g.nodes if n['kind'] == 'call' and n['args'] and recv_class(n['args'][0]) == 'self.' + LIVE and not any(c[2].endswith(LOAD) for c in n['ctx'])
                          and n['name'].rsplit('::', 1)[-1] in ('remove', 'swap_remove', 'retain', 'retain_mut', 'truncate', 'pop', 'insert', 'clear', 'dedup', 'split_off')]
                 res.append(Finding(ID, 'J6', label, not edits,
                                    'the live list is only iterated / taken while notifying' if not edits else
@@ -213,7 +238,7 @@ def _check(cx):
                 # J2: load first
 
                 def ev(n):
-                    if n['kind'] == 'enter' and n['name'].endswith('::load'):
+                    if n['kind'] == 'enter' and n['name'].endswith(LOAD):
                         return ('load',)
                     if down_method(n) in ('next', 'error', 'complete'):
                         return ('pub',)
@@ -292,7 +317,7 @@ def _check(cx):
                 g = cx.graph(fn['key'], inline=False)
                 moves = [n for n in g.nodes if n['kind'] == 'call' and n['name'].rsplit('::', 1)[-1] in ('push', 'insert', 'append', 'extend') and n['args']
                          and recv_class(n['args'][0]) == 'self.' + LIVE]
-                if f['n'] == 'load':
+                if f['n'] in loaders_of[tag] or (not loaders_of[tag] and f['n'] == 'load'):
                     held = lock_scopes(g)
                     acq = [n for n in g.nodes if n['kind'] == 'call' and n['name'] in ('rc::RcDeref::rc_deref', 'rc::RcDerefMut::rc_deref_mut') and n['args'] and recv_class(n['args'][0]) == 'self.' + WAIT]
                     atomic = bool(acq) and all(any(h[1] == 'self.' + LIVE for h in held[n['id']]) for n in acq)
